@@ -237,7 +237,10 @@ class QuantDriver:
         if ua == 0:
             pairs.append(("quantity==measurement", a, y))
         # the other spellings the statement names: approximately(...) and Levels (of positive quantities)
+        # (on the large thorough pool every fifth pair: the relation classes repeat)
         try:
+            if len(self.pool) > 100 and (ev["i"] * 31 + ev["j"] * 7 + ev["n"]) % 5:
+                raise StopIteration
             if ua > 0 and a.magnitude != 0:
                 rel = x.uncertainty.magnitude / abs(a.magnitude)        # approximately() takes a RELATIVE uncertainty
                 pairs.append(("approximately==measurement", m.approximately(a, rel), y))
@@ -251,6 +254,8 @@ class QuantDriver:
                     pairs.append(("level==level", levels[0], levels[1]))
             if levels[1] is not None:
                 pairs.append(("measurement==level", x, levels[1]))
+        except StopIteration:
+            pass
         except Exception as ex:
             mm.append(self._mm("C12", "measurement:level-or-approximately-construction-raised:%s" % type(ex).__name__, desc))
         for name, p, q in pairs:
